@@ -20,7 +20,7 @@ SPEC = dict(
     level="exploration",
     rule=("EXHAUSTIVE product of the statuses real git reports {clean, ' M', 'M ', 'MM', 'A ', 'AM', ' D', 'D ', "
           "'R ' (renamed away), 'R ' (renamed onto the name), 'RM' (both directions), 'RD', '??'} x {file with a version pattern, unrelated file} x "
-          "--allow-dirty on/off (44 cases) + all pairs (pattern-file status, unrelated-file status), repeated over "
+          "--allow-dirty on/off (44 cases) + all pairs (pattern-file status, unrelated-file status), the single-status product again in repositories whose .git is a FILE (linked worktree, --separate-git-dir), repeated over "
           "layouts (file in a sub-directory, different patterns): 1x quick, 40x thorough; non-trivial+distinct = "
           "distinct (status, role, allow-dirty, expected outcome, layout) tuples"),
     assumptions=["status text is produced by the installed git 2.39; staged unrelated changes under --allow-dirty are "
